@@ -148,6 +148,8 @@ def check_programs(items, max_steps=3000):
         if rexc:
             violations.append({"property": "C02", "stream": "prog", "case": it, "sig": "run:exception",
                                "what": "VirtualMachine.run raised " + rexc})
+        if opts.get("throttle") not in (None, False):
+            mon["vm"].op_count = mon["steps"]
         # the real run must agree with the monitored step-by-step run
         if not rexc and (w_vm(vm, rout, rdiags) != w_vm(mon["vm"], mon["stdout"], mon["diags"])):
             violations.append({"property": "C02", "stream": "prog", "case": it, "sig": "run:loop-differs",
@@ -180,5 +182,8 @@ def gen_items(seed, n, **kw):
             opts["init"] = [(1, 5), (2, 65535), (15, 0xC001)]
         if k % 7 == 3:
             opts["warn_return_off"] = True
+        if k % 6 == 0:
+            # the throttled loop is a second copy of the run loop: same guard, also for wild control flow
+            opts["throttle"] = 100000
         items.append({"text": text, "opts": opts, "features": feats, "gen_seed": s})
     return items
